@@ -103,6 +103,7 @@ func verifyOne(p *Program, sp *Specs, fs *FuncSpec, want, outDir string, workers
 			continue
 		}
 		out.Results = solveAll(g, rest, dir, workers, quick, full)
+		retrySlow(g, rest, out.Results, dir, workers, full, 3*full)
 		out.SolveMs += time.Since(t1).Milliseconds()
 		break
 	}
@@ -228,3 +229,34 @@ func printOutcome(o *funcOutcome, verbose, models bool) int {
 	}
 	return bad
 }
+
+// retrySlow asks again, with more time, the obligations that were left undecided (timeout /
+// unknown / a solver that died): a verdict must not depend on how busy the machine was.
+func retrySlow(g *Gen, obs []*Oblig, res []*Result, dir string, workers, quick, full int) {
+	var again []*Oblig
+	var idx []int
+	for k, r := range res {
+		if r == nil || r.OK() || r.Ob.Cover || r.Verdict == "sat" || knownFindingNames[r.Ob.Name] {
+			continue
+		}
+		again = append(again, obs[k])
+		idx = append(idx, k)
+	}
+	if len(again) == 0 || len(again) > 6 {
+		return
+	}
+	w := workers
+	if w > 4 {
+		w = 4
+	}
+	r2 := solveAll(g, again, filepath.Join(dir, "retry"), w, quick, full)
+	for j, r := range r2 {
+		if r.OK() || r.Verdict == "sat" {
+			res[idx[j]] = r
+		}
+	}
+}
+
+// knownFindingNames: obligations listed in known_findings.json (they fail by definition; asking
+// again with more time would only slow the check down).
+var knownFindingNames = map[string]bool{}
